@@ -53,11 +53,12 @@ class C10(Prop):
                   "not modelled: keys are independent cells. AtomicBucket/reservoir are a sequential bag (C05/C16 own their "
                   "concurrency). Composed theorem for sequential cases: C10_spec_ok_on_model_seq (forall c, seq_wf c -> spec_ok (CSeq c) (run_case (CSeq c)) "
                   "= true; seq_wf = counter values < 2^64, sampling windows within the reservoir, no newline byte in prefix/labels/key names). "
-                  "NOT proved: (i) spec_ok on the model for SCHEDULED cases (results vs ghost lists, gauge set-membership); (ii) concurrent "
-                  "absolutes: 'no wrapped delta, last <= current' for increment-free programs with one flusher on every completed run with "
-                  "known_class = None (C10_absolute_no_wrap_outside_class, via C10_known_class_none_hazard_free); the conservation identity is "
-                  "only sequential (with two updaters it is false even outside the class); runs that do not complete within the round-robin "
-                  "fuel are not covered by the class link; (iii) idle-once suffix form: flusher between flushes (C10_idle_once_suffix) or one "
+                  "Scheduled cases: C10_spec_ok_on_model_sched_partial (known_class = None, non-empty threads, run completes within the round-robin "
+                  "fuel, counter driven only by increments or only by absolutes); both shapes: C10_spec_ok_on_model_partial. "
+                  "NOT proved: (i) the delta-bound clause of the scheduled checker on the model for programs MIXING increments and absolutes "
+                  "(the other three clauses are proved for every program); (ii) the concurrent conservation identity for absolutes (with two "
+                  "updaters it is false even outside the class); runs that exhaust the round-robin fuel are outside the class link (never "
+                  "generated); (iii) idle-once suffix form: flusher between flushes (C10_idle_once_suffix) or one "
                   "flush in flight (C10_idle_once_suffix_in_flight); other threads may only touch the gauge. A first absolute racing a flush or another first absolute is the open finding C10-rebase-straddle. The forwarder loop (forwarder/sync.rs Forwarder::run, incl. the lifetime of FlushState and the UDP send) is not modelled; it is "
                   "exercised end to end by a real exporter built with DogStatsDBuilder against a harness UDP socket in both tiers (judged per key: "
                   "sums, exactly one closing zero, gauge in every flush, histogram values once, timestamp iff Aggressive). "
